@@ -105,6 +105,33 @@ static bool core_emits(const std::string & name, bxdecay0::particle_code code)
   return false;
 }
 
+// "pubz": a published background nuclide and a seed for which the very first decay contains a particle of zero momentum
+// (Kr81: capture from a shell whose binding energy is neglected emits a 0 keV X-ray on purpose, 2.6% of the decays)
+static int g_seed_pubz = -1;
+static bool find_zero_momentum_seed(const std::string & name)
+{
+  for (int seed = 2; seed < 20000; seed++) {
+    try {
+      std::default_random_engine gen((unsigned int)seed);
+      bxdecay0::std_random prng(gen);
+      bxdecay0::decay0_generator g;
+      g.set_decay_category(bxdecay0::decay0_generator::DECAY_CATEGORY_BACKGROUND);
+      g.set_decay_isotope(name);
+      g.initialize(prng);
+      bxdecay0::event ev;
+      g.shoot(prng, ev);
+      for (const auto & p : ev.get_particles())
+        if (p.get_px() == 0.0 && p.get_py() == 0.0 && p.get_pz() == 0.0) {
+          g_seed_pubz = seed;
+          return true;
+        }
+    } catch (std::exception &) {
+      return false;
+    }
+  }
+  return false;
+}
+
 static bool core_init_ok(bool dbd, const std::string & name)
 {
   try {
@@ -152,6 +179,7 @@ static void choose_names()
     if (bk.count(n) && !db.count(n) && core_emits(n, bxdecay0::POSITRON) && nuclide_name["pubp"].empty()) nuclide_name["pubp"] = n;
   for (const char * n : {"Am241", "Po210", "U238", "Th230"})
     if (bk.count(n) && !db.count(n) && core_emits(n, bxdecay0::ALPHA) && nuclide_name["puba"].empty()) nuclide_name["puba"] = n;
+  nuclide_name["pubz"] = (bk.count("Kr81") && !db.count("Kr81") && find_zero_momentum_seed("Kr81")) ? "Kr81" : "";
   if (nuclide_name["pubp"].empty()) nuclide_name["pubp"] = "";
   if (nuclide_name["puba"].empty()) nuclide_name["puba"] = "";
   for (const char * n : {"Xx99", "Qq1"}) {
@@ -175,7 +203,7 @@ static bool concrete_nuclide(const Cfg & c, std::string & name)
     return true;
   }
   std::string side = (c.cat == "dbd") ? "dbd" : "bkg"; // "bad"/"none" categories: any name will do
-  auto it          = (c.nuc == "pubp" || c.nuc == "puba") ? nuclide_name.find(c.nuc) : nuclide_name.find(side + "/" + c.nuc);
+  auto it          = (c.nuc == "pubp" || c.nuc == "puba" || c.nuc == "pubz") ? nuclide_name.find(c.nuc) : nuclide_name.find(side + "/" + c.nuc);
   if (it == nuclide_name.end() || it->second.empty()) return false;
   name = it->second;
   return true;
@@ -183,6 +211,7 @@ static bool concrete_nuclide(const Cfg & c, std::string & name)
 
 static int concrete_seed(const Cfg & c)
 {
+  if (c.nuc == "pubz" && c.seed == "s1" && g_seed_pubz > 0) return g_seed_pubz;
   return c.seed == "s1" ? SEED_S1 : c.seed == "s2" ? SEED_S2 : c.seed == "zero" ? 0 : c.seed == "neg" ? SEED_NEG : SEED_DFLT;
 }
 
